@@ -343,7 +343,16 @@ def run_storage(case):
             if case.get("ad_mode") == "reverse":
                 rdm[wt] = np.load("rdm1_afqmc.npz")["rdm1"]
                 os.remove("rdm1_afqmc.npz")
-        d = float(np.max(np.abs(rows["rhf"][:, 1] - rows["uhf"][:, 1])))
+        # an extinct population (all block weights 0) reports 0/0 = NaN for the block energy in BOTH formats: NaN in the same places is
+        # agreement (what the weights may do is C09's business), NaN in one format only is not
+        def _nan_aware(a_, b_):
+            a_, b_ = np.asarray(a_, dtype=float), np.asarray(b_, dtype=float)
+            if not np.array_equal(np.isnan(a_), np.isnan(b_)):
+                return float("inf")
+            m_ = ~np.isnan(a_)
+            return float(np.max(np.abs(a_[m_] - b_[m_]))) if m_.any() else 0.0
+
+        d = _nan_aware(rows["rhf"][:, 1], rows["uhf"][:, 1])
         dw = float(np.max(np.abs(rows["rhf"][:, 0] - rows["uhf"][:, 0])))
         sc = max(1.0, float(np.max(np.abs(rows["rhf"][:, 1]))))
         events.append(judge("storage/driver-block-energies", d / sc, 2e-6, key + "/block-energies", ad_mode=case.get("ad_mode"),
@@ -351,18 +360,21 @@ def run_storage(case):
         events.append(judge("storage/driver-block-weights", dw / max(1.0, float(np.max(rows["rhf"][:, 0]))), 2e-6, key + "/block-weights"))
         if case.get("ad_mode") is not None:
             # the AD observable column (response to the one-body operator handed to the driver) is a reported output too
-            do = float(np.max(np.abs(rows["rhf"][:, 2] - rows["uhf"][:, 2])))
+            do = _nan_aware(rows["rhf"][:, 2], rows["uhf"][:, 2])
             events.append(judge("storage/driver-block-observables", do / max(1.0, float(np.max(np.abs(rows["rhf"][:, 2])))), 2e-5, key + "/block-observables",
                                 rhf=rows["rhf"][:, 2].tolist(), uhf=rows["uhf"][:, 2].tolist()))
         if case.get("ad_mode") == "reverse":
             # rdm1_afqmc.npz: the spin-resolved AD density matrix must not depend on the storage format either
-            dr = float(np.max(np.abs(rdm["rhf"] - rdm["uhf"])))
+            dr = _nan_aware(rdm["rhf"], rdm["uhf"])
             events.append(judge("storage/driver-rdm1", dr, 2e-5 * max(1.0, float(np.max(np.abs(rdm["uhf"])))), key + "/rdm1",
                                 trace_restricted=[float(np.trace(rdm["rhf"][0])), float(np.trace(rdm["rhf"][1]))],
                                 trace_unrestricted=[float(np.trace(rdm["uhf"][0])), float(np.trace(rdm["uhf"][1]))]))
         sample = {"level": "driver", "ad_mode": case.get("ad_mode"), "block_energies_restricted": rows["rhf"][:, 1].tolist(),
                   "block_energies_unrestricted": rows["uhf"][:, 1].tolist()}
-    return {"events": events, "nontrivial": True, "sample": sample, "counters": {"storage_cases": 1}}
+    informative = True
+    if case["level"] == "driver":
+        informative = bool(np.isfinite(rows["rhf"][:, 1]).any())   # an extinct population in both formats decides nothing
+    return {"events": events, "nontrivial": informative, "sample": sample, "counters": {"storage_cases": 1, "storage_extinct_runs": int(not informative)}}
 
 
 def run_cpmc(case):
